@@ -60,7 +60,7 @@ func findDefinitionTarget(journal *ast.Journal, mapper *columnMapper, pos protoc
 
 		payee := getPayeeOrDescription(tx)
 		if payee != "" {
-			payeeRange := estimatePayeeRange(tx, payee)
+			payeeRange := mapper.payeeRange(tx, payee)
 			if positionInRange(pos, payeeRange) {
 				return &definitionTarget{
 					context:     DefContextPayee,
